@@ -279,6 +279,12 @@ func RunLB(s *sim.Sim, prop string, uniq string) *LB {
 					}
 				}
 				for r := 0; r < retries; r++ {
+					if r > 0 && ch.Bool("work", "resnap") {
+						// a retry takes the snapshot that is current by then (the request's context — and with it
+						// the policy's per-request state — stays): a replacement may have happened in between
+						s.Yield("t:op", uint64(100+t))
+						snap = snapshot()
+					}
 					h = snap.LoadBalancer().ChooseHost(&lbCtx{ctx, hashRoute, mc})
 				}
 				op.ret = w.tick()
